@@ -68,6 +68,8 @@ def oracle_wellformed(case, ctx):
         ctx.label("refitted")
     r = sut(clf.fit, X, y_in)
     if isinstance(r, Raised):
+        if not r.is_a(ValueError):
+            return [D("fit_raised:%s:%s@%s" % (kind, r.type, r.where), r.msg)]
         ctx.mark_rejected()
         ctx.label("fit_refused:%s" % kind)
         return []
